@@ -20,7 +20,7 @@ func init() {
 			"D2 single flight is atomic — in RequestCache.Get the cache-miss test, the pending-call test and the registration of the new call happen in one critical section (no Unlock on any path between), the fetch function is called with the lock released, every path after it signals the waiters (wg.Done), re-examines/removes the pending entry, and stores into the cache only when the fetch succeeded; " +
 			"D3 spawn-site sharing — goroutines spawned in a loop for the same received result never receive a slice that append may have built on a shared backing array (the argument is a fresh literal or built on slices.Clone); " +
 			"D4 fan-out bookkeeping and canonical output — every goroutine spawn is matched by exactly one increment of the pending counter and the worker sends exactly once; every return of the patch list passes SortFunc and then CompactFunc with the same comparator. " +
-			"Added in round 2: D1 additionally: a map/slice reference loaded from a guarded field is used only while the mutex is still held. Added in round 3: the collector's decisions that drop a received result are the audited ones (shared with C12), so follow-up attempts do not depend on arrival order. Added in round 7: D3 additionally: ConstrainingSubgraph edits in place only edge lists the new nodes own (every store into such a field is a fresh slice). NOT decided: linearizability of the cache, equality of results across schedules, races inside third-party clients.",
+			"Added in round 2: D1 additionally: a map/slice reference loaded from a guarded field is used only while the mutex is still held. Added in round 3: the collector's decisions that drop a received result are the audited ones (shared with C12), so follow-up attempts do not depend on arrival order. Added in round 7: D3 additionally: ConstrainingSubgraph edits in place only edge lists the new nodes own (every store into such a field is a fresh slice). Added in round 8: D1 additionally: every walkContext field the status goroutine touches is in the guarded-by table or never written by the walk. NOT decided: linearizability of the cache, equality of results across schedules, races inside third-party clients.",
 		Run: runC16,
 		Controls: []Mutant{
 			{Name: "getmap-unlocked", File: "clients/datasource/cache.go", Old: "func (rq *RequestCache[K, V]) GetMap() map[K]V {\n	rq.mu.Lock()\n	defer rq.mu.Unlock()\n", New: "func (rq *RequestCache[K, V]) GetMap() map[K]V {\n", Rule: "D1-lockset", Site: "GetMap"},
@@ -63,6 +63,7 @@ func runC16(p *Prog, r *Report) {
 	r.Rule("D3-spawn-sharing", "sibling goroutines never share an appended slice")
 	r.Rule("D4-fanout", "spawn/counter pairing, one send per worker, sorted+compacted output")
 	c16Lockset(p, r)
+	statusGoroutineTouchesGuardedOnly(p, r, "D1-lockset")
 	c16SingleFlight(p, r)
 	c16Patches(p, r)
 	c16ComparatorLoopReturnsDifferences(p, r, "D4-fanout")
